@@ -150,6 +150,33 @@ async fn startup_udp<const N: usize>(config: &ServerConfig<SslConfig>, user_mana
     }
 }
 
+/// Verification hook: a factory of per-connection TCP codecs sharing one `ServerContext`
+/// (salt cache, user table), built exactly as `startup` / `startup_tcp` build them.
+#[cfg(octo_verif)]
+pub fn verif_tcp_factory(
+    config: &ServerConfig<SslConfig>,
+) -> anyhow::Result<Box<dyn Fn() -> anyhow::Result<Box<dyn super::verif::Inner>> + Send + Sync>> {
+    fn build<const N: usize>(
+        config: &ServerConfig<SslConfig>,
+    ) -> anyhow::Result<Box<dyn Fn() -> anyhow::Result<Box<dyn super::verif::Inner>> + Send + Sync>> {
+        let mut user_manager: ServerUserManager<N> = ServerUserManager::new();
+        for user in config.user.iter() {
+            user_manager.add_user(ServerUser::try_from(user).map_err(|e| anyhow!(e))?);
+        }
+        let context: ServerContext<N> = ServerContext::init(config, Arc::new(user_manager))?;
+        Ok(Box::new(move || Ok(Box::new(PayloadCodec::from(&context)))))
+    }
+    match config.cipher {
+        CipherKind::Aes128Gcm | CipherKind::Aead2022Blake3Aes128Gcm => build::<16>(config),
+        CipherKind::Aes256Gcm
+        | CipherKind::Aead2022Blake3Aes256Gcm
+        | CipherKind::ChaCha20Poly1305
+        | CipherKind::Aead2022Blake3ChaCha8Poly1305
+        | CipherKind::Aead2022Blake3ChaCha20Poly1305 => build::<32>(config),
+        CipherKind::Unknown => bail!("unknown cipher kind"),
+    }
+}
+
 struct UdpAssociate<const N: usize> {
     task: JoinHandle<()>,
     sender: Sender<(BytesMut, Address, Session<N>)>,
